@@ -58,7 +58,7 @@ Definition dec_filled (d : rdec) (tgt : dest) : rdec :=
 
 Definition sw_filled (r : cswitch) (dd : dst) : cswitch :=
   mkSwitch (sw_operand r) (sw_result r) (match sw_wait r with CWTimeout t c => CWTimeout t (fill_cat dd c) | w => w end)
-           (sw_cases r) (map (fill_cat dd) (sw_cats r)) (fill_cat dd (sw_default r)).
+           (sw_cases r) (map (fill_cat dd) (sw_cats r)) (fill_cat dd (sw_default r)) (sw_auto r).
 
 Lemma cat_sim_fill phi uu x c tgt dd :
   cat_sim phi uu x c -> dest_sim phi uu tgt dd -> cat_sim phi uu (fst x, fill (snd x) tgt) (fill_cat dd c).
@@ -75,7 +75,7 @@ Qed.
 Lemma dec_sim_fill phi uu d r tgt dd :
   dec_sim phi uu d r -> dest_sim phi uu tgt dd -> dec_sim phi uu (dec_filled d tgt) (sw_filled r dd).
 Proof.
-  intros [H1 H2 H3 H4 H5 H6 H7 H8] Ht. constructor.
+  intros [H1 H2 H3 H4 H5 H6 H7 H8 H9] Ht. constructor.
   - exact H1.
   - exact H2.
   - exact H3.
@@ -86,6 +86,11 @@ Proof.
   - cbn. apply cat_sim_fill; assumption.
   - rewrite sw_filled_uuids. exact H7.
   - rewrite sw_filled_uuids. exact H8.
+  - eapply marks_same; [| | | |exact H9].
+    + cbn. rewrite map_map. reflexivity.
+    + cbn. rewrite map_map. reflexivity.
+    + unfold sw_filled, sw_all_cats. cbn. rewrite !map_app, map_map. cbn. f_equal. f_equal. destruct (sw_wait r); reflexivity.
+    + reflexivity.
 Qed.
 
 Lemma shape_filled cls d tgt : shape_ok cls d -> shape_ok cls (dec_filled d tgt).
